@@ -24,6 +24,16 @@ CHECKS = {
         note="trusts CPython dict/list as the reference and pickle/copy as the definition of a copy; nested dict-likes are "
              "Container/ListContainer as parsing produces them; keys/values come from a finite alphabet",
         design="§3 C20"),
+    "C10": dict(
+        technique="bounded-exhaustive enumeration of bit layouts x region values on both implementations (sized/streaming), big-integer oracle",
+        text="All 2187 signed/unsigned layouts of an 8-bit region on all 256 values, all compositions of 16 bits (<=3 parts quick, <=4 "
+             "thorough; all 65536 values in thorough, a boundary set in quick), 24..64-bit regions on walking/boundary patterns, "
+             "swapped fields, Flag, Padding, nested Struct/Array and Bytewise islands are each executed through the pre-read "
+             "(Transformed) and the streaming (Restreamed) implementation; parse value, built bytes and outer stream advance are "
+             "compared with shift/mask arithmetic on the region's big-endian integer; out-of-range values and unswappable widths "
+             "must raise IntegerError.",
+        note="trusts the 60-line shift/mask reference in mc/props/c10.py; region totals are multiples of 8 (documented requirement)",
+        design="§3 C10"),
 }
 
 PENDING_REASON = "check not built yet in this round (see DESIGN.md §7 build order); it will be decided by the same bounded-exhaustive engine"
